@@ -89,6 +89,7 @@ pub fn replay_json(id: &str, leg: &str, fail: &Fail, start: &Start, trace: &Trac
         "start": drive::start_json(start),
         "actions": trace.actions.iter().map(action_text).collect::<Vec<_>>(),
         "branch": trace.branch.iter().map(action_text).collect::<Vec<_>>(),
+        "fork": trace.fork,
         "profile": profile_name(profile),
         "seed": seed,
         "shard": shard,
